@@ -173,3 +173,63 @@ func (k *KernelSys) ReadFile(p string) ([]byte, int) {
 	b, err := os.ReadFile(k.m(p))
 	return b, KCode(err)
 }
+
+// KernelFiles is the open-file world of the real kernel.
+type KernelFiles struct {
+	K  *KernelSys
+	Fs []*os.File
+}
+
+func (s *KernelFiles) Open(p string, flag int, perm uint32) (int, int) {
+	f, err := os.OpenFile(s.K.m(p), flag, GoMode(perm))
+	if err != nil {
+		return -1, KCode(err)
+	}
+	s.Fs = append(s.Fs, f)
+	return len(s.Fs) - 1, 0
+}
+func (s *KernelFiles) Read(h, n int) ([]byte, int) {
+	b := make([]byte, n)
+	k, err := s.Fs[h].Read(b)
+	return b[:k], KCode(err)
+}
+func (s *KernelFiles) ReadAt(h, n int, off int64) ([]byte, int) {
+	b := make([]byte, n)
+	k, err := s.Fs[h].ReadAt(b, off)
+	return b[:k], KCode(err)
+}
+func (s *KernelFiles) Write(h int, b []byte) (int, int) {
+	k, err := s.Fs[h].Write(b)
+	return k, KCode(err)
+}
+func (s *KernelFiles) WriteAt(h int, b []byte, off int64) (int, int) {
+	k, err := s.Fs[h].WriteAt(b, off)
+	return k, KCode(err)
+}
+func (s *KernelFiles) Seek(h int, off int64, whence int) (int64, int) {
+	r, err := s.Fs[h].Seek(off, whence)
+	return r, KCode(err)
+}
+func (s *KernelFiles) FTruncate(h int, size int64) int { return KCode(s.Fs[h].Truncate(size)) }
+func (s *KernelFiles) FStat(h int) (Stat, int) {
+	fi, err := s.Fs[h].Stat()
+	if err != nil {
+		return Stat{}, KCode(err)
+	}
+	return kstat(fi), 0
+}
+func (s *KernelFiles) FSync(h int) int                { return KCode(s.Fs[h].Sync()) }
+func (s *KernelFiles) FChmod(h int, mode uint32) int  { return KCode(s.Fs[h].Chmod(GoMode(mode))) }
+func (s *KernelFiles) FChown(h int, uid, gid int) int { return KCode(s.Fs[h].Chown(uid, gid)) }
+func (s *KernelFiles) Close(h int) int                { return KCode(s.Fs[h].Close()) }
+func (s *KernelFiles) Readdirnames(h, n int) ([]string, int) {
+	ns, err := s.Fs[h].Readdirnames(n)
+	return ns, KCode(err)
+}
+
+// CloseAll closes what is still open.
+func (s *KernelFiles) CloseAll() {
+	for _, f := range s.Fs {
+		_ = f.Close()
+	}
+}
